@@ -1,5 +1,5 @@
 """Property -> rules table."""
-import lattice_rules, agg_rules, lib_rules, byods_rules, byods_rules2, gen_driver, witness_rules, macro_rules
+import lattice_rules, agg_rules, lib_rules, byods_rules, byods_rules2, gen_driver, witness_rules, macro_rules, uf_rules
 
 
 def _lib_protocol(ctx, rep):
@@ -21,6 +21,23 @@ def run_C17(ctx, rep):
     agg_rules.check_L11(ctx, rep)
     rep.floor('L11.percentile', 2, 'ordering step and rank selection of percentile')
     rep.floor('L11.empty', 7, 'aggregators')
+
+
+def run_C18(ctx, rep):
+    TR = 'trrel_union_find::TrRelUnionFind::<T>::'
+    EQ = 'union_find::EqRel::<T>::'
+    uf_rules.check_U1(ctx, rep, TR, 'elem_ids', ['get_dominant_id*'])
+    uf_rules.check_U1(ctx, rep, EQ, 'elem_ids', ['get_dominant_id*'])
+    uf_rules.check_U1(ctx, rep, 'uf::UnionFind::<T>::', 'items', ['find'], find_impl='uf::elems::Elems::<T>::')
+    uf_rules.check_U2(ctx, rep, TR, 'set_connections', 'reverse_set_connections',
+                      [('set_of_by_set_id', 'rev_set_of_by_set_id'), ('set_of', 'rev_set_of'), ('get_set_connections', 'get_reverse_set_connections')])
+    uf_rules.check_U3(ctx, rep, [TR, EQ])
+    uf_rules.check_U4(ctx, rep)
+    uf_rules.check_U5(ctx, rep)
+    byods_rules.check_L16(ctx, rep, ['trrel_union_find', 'union_find'])
+    byods_rules.check_L17(ctx, rep)
+    rep.floor('U1', 6, 'reads of elem_ids / items'); rep.floor('U2', 3); rep.floor('U3', 2); rep.floor('U4', 1); rep.floor('U5', 3)
+    rep.floor('L16', 3); rep.floor('L17', 1)
 
 
 def run_C19(ctx, rep):
@@ -455,6 +472,25 @@ PROPS = {
                        'shapes of L23 and L26.',
         'assumptions': ['TrRelUnionFind::add / add_set_connection are correct on values', 'no panic other than the two decided shapes'],
         'rule_text': 'one instance = one per-key merge call site / one loop step / one find hit-arm / one sibling pair',
+    },
+    'C18': {
+        'run': run_C18, 'corpus': False, 'level': 'other',
+        'explanation': 'NOT the behaviour over operation histories (value-level, out of reach of a static argument) but five structural clauses every '
+                       'correct answer of TrRelUnionFind / EqRel / uf::UnionFind depends on, decided on the typed HIR: U1 a class id read from the lazily '
+                       'maintained element table (`elem_ids`, `items`) goes through the find function (get_dominant_id* / Elems::find, or a method that '
+                       'resolves its id parameter first) before it indexes `sets`, keys a connection table or is handed out (taint over let / match / '
+                       'closure bindings); U2 set_of / rev_set_of, set_of_by_set_id / rev_set_of_by_set_id and get_set_connections / '
+                       'get_reverse_set_connections read mirror-image field sets (transitively through methods of self); U3 where a class set is taken out '
+                       'of `sets[S]` its members are merged into `sets[F]`, F != S, and `set_subsumptions.insert(S, F)` is written with that S and F; '
+                       'U4 the linking step of uf (Elem::union_by_rank) is applied to the `.elem` of two Elems::find results taken for two different ids; '
+                       'U5 Elems::find hands out (id, elem) only under `id == elem.parent` for the element fetched for id, and redirects parent pointers '
+                       'only to ids read from parent pointers; L16 find follows subsumption chains; L17 siblings agree on resolving their id parameter. '
+                       'NOT decided: that the answers equal the reference closure, the closedness of set_connections under add_set_connection / '
+                       'merge_multiple, the internal consistency assertions, panic freedom.',
+        'assumptions': ['hashbrown maps and sets behave as maps and sets', 'the class-level edge tables are kept transitively closed by add_set_connection / merge_multiple (not decided)',
+                        'value-level agreement with the reference closure is not decided'],
+        'rule_text': 'one instance = one read of an element table / one sibling pair / one collapse site / one linking call / one result or parent write of find',
+        'design_ref': 'DESIGN.md section 4 (C18) and section 14',
     },
     'C19': {
         'run': run_C19, 'corpus': False, 'level': 'other',
